@@ -111,6 +111,39 @@ def conc_templates():
                         out.append({'id': 'ct-%s-%04d' % (sname, n), 'family': 'conc', 'conf': c, 'ops': ops,
                                     'keys': {'a': 'a', 'b': 'b', 'c': 'c'}})
                         n += 1
+    # CancelGC at every file boundary (before the first file = g.before, after each file = g.srcend), alone or together
+    # with a client write at the same moment; multi-file ranges so that boundaries 2 and 3 exist (finding F20)
+    cshapes = dict(shapes)
+    cshapes['three'] = (dict(filemax_blk=2, splitcap=3, bodymax_blk=1),
+                        [('set', 'a'), ('set', 'b'), ('set', 'b'), ('set', 'c'), ('set', 'c'), ('del', 'a'), ('set', 'c')], (0, 2))
+    cshapes['from1'] = (dict(filemax_blk=2, splitcap=3, bodymax_blk=1),
+                        [('set', 'a'), ('set', 'b'), ('set', 'b'), ('set', 'c'), ('set', 'c'), ('set', 'a'), ('set', 'c')], (1, 2))
+    for sname, (conf, prefix, rng_) in cshapes.items():
+        # (the flag may also be raised in the middle of a file - g.newest / g.hint of a record - and must then take
+        #  effect at the next boundary only)
+        for point, nth, hk in (('g.before', 1, ''), ('g.srcend', 1, ''), ('g.srcend', 2, ''), ('g.srcend', 3, ''),
+                               ('g.newest', 1, 'a'), ('g.newest', 1, 'b'), ('g.newest', 2, 'b'), ('g.hint', 1, 'b'), ('g.hint', 1, 'c')):
+            for extra in (None, 'set', 'del', 'get'):
+                for ck in (['a'] if extra is None else ['a', 'b']):
+                    ops = []
+                    v = 1
+                    for p in prefix:
+                        if p == 'restart':
+                            ops += [{'op': 'close'}, {'op': 'open', 'rm': []}]
+                        elif p[0] == 'set':
+                            ops.append({'op': 'set', 'k': p[1], 'v': v, 'nblk': 1})
+                            v += 1
+                        else:
+                            ops.append({'op': 'del', 'k': p[1]})
+                    ops.append({'op': 'flush'})
+                    do = [{'op': 'cancel'}] + (dos[extra](ck) if extra else [])
+                    ops.append({'op': 'gc', 'begin': rng_[0], 'end': rng_[1], 'merge': False,
+                                'at': [{'point': point, 'k': hk, 'nth': nth, 'do': do}]})
+                    ops += [{'op': 'readall'}, {'op': 'close'}, {'op': 'open', 'rm': ['*.idx.hash']}, {'op': 'readall'}]
+                    c = dict(conf, rotflush='auto', buckets=16, bucket=15, height=3, micro=False)
+                    out.append({'id': 'cc-%s-%04d' % (sname, n), 'family': 'conc', 'conf': c, 'ops': ops,
+                                'keys': {'a': 'a', 'b': 'b', 'c': 'c'}})
+                    n += 1
     return out
 
 
@@ -182,6 +215,27 @@ def run(pid, tier, seed, work, log, replay=None):
                 raise V.Inconclusive('TLC failed: %s\n%s' % (r['error'] or 'timeout', r['out'][-1500:]))
             if r['violated']:
                 res['lead'].append(('MC', 'MC_Conc', r['violated']))
+        if pid == 'C05':
+            # "... (or is cancelled)": CancelGC enabled at every step of every pass of the sequential configuration
+            import fam_seq
+            for j, (over, expect) in enumerate(
+                    [(dict(MaxOps=5, WithGC='TRUE', FileMax=2, Vals='{1}', Revs='{0}', MaxChunk=3, Mutants='{"cancel"}'), None)] +
+                    ([(dict(MaxOps=5, WithGC='TRUE', FileMax=2, Vals='{1}', Revs='{0}', MaxChunk=3, Mutants='{"cancel", "F20"}'), 'C01_ReadMap'),
+                      (dict(MaxOps=6, MaxRestarts=1, WithGC='TRUE', FileMax=2, Vals='{1}', Revs='{0}', MaxChunk=4, Mutants='{"cancel"}'), None)]
+                     if tier == 'thorough' else [])):
+                r = V.tlc_run('MC_Seq', fam_seq.mc_cfg(over), os.path.join(work, 'mcc%d' % j), timeout=3000)
+                mcruns.append({'module': 'MC_Seq', 'constants': over, 'distinct': r['distinct'], 'generated': r['states'],
+                               'depth': r['depth'], 'wall_s': round(r['wall'], 1), 'violated': r['violated'], 'expected_violation': expect})
+                states += r['distinct']
+                trans += r['states']
+                log('MC_Seq+cancel %s: %d distinct / %d generated, %.1fs%s' % (over, r['distinct'], r['states'], r['wall'],
+                                                                               (' VIOLATED ' + str(r['violated'])) if r['violated'] else ''))
+                if r['error'] or r['timeout']:
+                    raise V.Inconclusive('TLC failed: %s\n%s' % (r['error'] or 'timeout', r['out'][-1500:]))
+                if expect and r['violated'] != expect:
+                    raise V.Inconclusive('self-test: the specification mutant F20 (old endGCWriting) was not rediscovered by TLC')
+                if r['violated'] and not expect:
+                    res['lead'].append(('MC', 'MC_Seq+cancel', r['violated']))
     rng = random.Random(seed * 15485863 + int(pid[1:]))
     gated, free = [], []
     if replay:
@@ -191,7 +245,7 @@ def run(pid, tier, seed, work, log, replay=None):
         if pid == 'C05':
             gated = conc_templates()
             if tier == 'quick':
-                gated = rng.sample(gated, 220)
+                gated = rng.sample(gated, 320)
         free = free_scenarios(rng, {'quick': 24, 'thorough': 300}[tier], pid, '%s-free-%d' % (pid.lower(), seed))
         fixed = os.path.join(V.VERIF, 'scenarios', 'fixed', pid)
         if os.path.isdir(fixed):
